@@ -526,7 +526,7 @@ func fieldsInCone(v ssa.Value, seen map[ssa.Value]bool, out map[string]bool, dep
 		}
 		// a small helper of the same module that computes the answer (e.g. `p.isInlinedEnumNumber(e.Left)`): what it
 		// looks at (dynamic types tested, fields read) counts as looked at by the caller's decision; one level deep
-		if callee := x.Call.StaticCallee(); coneThroughCallees && callee != nil && depth < 30 && callee.Pkg != nil && strings.HasPrefix(callee.Pkg.Pkg.Path(), modPath) && len(callee.Blocks) <= 40 {
+		if callee := x.Call.StaticCallee(); coneThroughCallees && callee != nil && callee != x.Parent() && depth < 30 && callee.Pkg != nil && strings.HasPrefix(callee.Pkg.Pkg.Path(), modPath) && len(callee.Blocks) <= 40 {
 			for _, b := range callee.Blocks {
 				for _, in := range b.Instrs {
 					switch y := in.(type) {
@@ -539,6 +539,16 @@ func fieldsInCone(v ssa.Value, seen map[ssa.Value]bool, out map[string]bool, dep
 							out["type:"+n.Obj().Name()] = true
 						}
 					case *ssa.FieldAddr:
+						// only fields the helper READS (an address that is only stored through is not looked at)
+						isLoaded := false
+						for _, r := range *y.Referrers() {
+							if u, ok := r.(*ssa.UnOp); ok && u.Op == token.MUL {
+								isLoaded = true
+							}
+						}
+						if !isLoaded {
+							break
+						}
 						if pt, ok := y.X.Type().Underlying().(*types.Pointer); ok {
 							if n, ok := pt.Elem().(*types.Named); ok {
 								if st, ok := n.Underlying().(*types.Struct); ok {
@@ -974,6 +984,21 @@ func runUnguardedRules(p *Program, id string) ([]*Gen, []string) {
 							if !okAlt {
 								o.Pre = "sat"
 								o.Model = fmt.Sprintf("result %d is %s, expected %s", rn, got, parts[1])
+							}
+						}
+					}
+					// required origin of an argument (arg-from=N:PARAM): the parameter is in the backward data cone of the
+					// argument (the argument is computed from it, not a constant or something unrelated)
+					if af := kv["arg-from"]; af != "" {
+						parts := strings.SplitN(af, ":", 2)
+						var an int
+						fmt.Sscanf(parts[0], "%d", &an)
+						if c, isCall := in.(*ssa.Call); isCall && len(parts) == 2 && an < len(c.Call.Args) {
+							cone := map[string]bool{}
+							fieldsInCone(c.Call.Args[an], map[ssa.Value]bool{}, cone, 0)
+							if !cone["param:"+parts[1]] {
+								o.Pre = "sat"
+								o.Model = fmt.Sprintf("argument %d is %s, which is not computed from parameter %s", an, valuePath(c.Call.Args[an]), parts[1])
 							}
 						}
 					}
